@@ -34,7 +34,10 @@ EXPLANATION = ("Theorems (Props/C13.lean, about the definitions drv_c13 runs; th
                "both sides, which /repo does once fixes/C13-yielder-translate-mapper.patch is in), yield_eq_list_newick (route level: the yield "
                "op = the list op), reader_eq_yielder_partial and yield_eq_list_nexus_partial (whole NEXUS stream; partial: documents whose "
                "block loop meets no SETS/ASSUMPTIONS/CODONS block - counted per run in input_distribution - and the reader side run with the "
-               "yielder's attached namespace; the attached/non-attached residue is compared by the correspondence on every document), "
+               "yielder's attached namespace), yield_eq_list_nexus (route level, both sides as the driver runs them: whenever the list op "
+               "- reader, namespace not attached - reads the source, the yield op delivers the same trees and namespace labels; proved by a "
+               "simulation of every successful non-attached run by the attached run, Theory/C13Sim.lean; still under noSetsBlocks, now "
+               "evaluated on the driver's own list run), "
                "whole_eq_flatten, incremental_eq_whole (consequences of the reader being parametric in the tree-list factory, which is how the "
                "code is written: tree_list_factory is an argument), incremental_collection, dataset_eq_lists_partial (same exclude_chars on both "
                "sides only), offset_spec / offset_neg_spec / offset_default / offset_list_spec / offset_list_default / offsets_enumerate_whole / "
@@ -720,8 +723,9 @@ def cfg_field(opts):
         opts.get("suppress_leaf_node_taxa", False), opts.get("suppress_edge_lengths", False)))
 
 
-def model_line(op, doc, toks, tail, ns_title=None, ns_labels=(), existing=0, coll=None, tree=None, label=None):
-    words = [op, doc["schema"], cfg_field(doc["opts"]), hex6(ns_title), str_list_field(list(ns_labels)), str(existing),
+def model_line(op, doc, toks, tail, ns_title=None, ns_labels=(), existing=0, coll=None, tree=None, label=None, flags=""):
+    """flags: "" (what TreeList.get / Tree.get run with) or two digits exclude_chars, attached namespace"""
+    words = [op, doc["schema"], cfg_field(doc["opts"]) + flags, hex6(ns_title), str_list_field(list(ns_labels)), str(existing),
              "-" if coll is None else str(coll), "-" if tree is None else str(tree), hex6(label), str_list_field(tail)]
     for t, q, e, coms in toks:
         words.append("%s|%d|%d|%s" % (hex6(t), 1 if q else 0, 1 if e else 0, str_list_field(coms)))
@@ -909,6 +913,12 @@ def correspond(ctx, dendropy, doc, session, blocks_shape, refusal_only=False):
                 impl_answer(lambda: impl_list(dendropy.Tree.yield_from_files([io.StringIO(text)], schema, **opts))), canon_list)
     session.add(model_line("dataset", doc, toks, tail), "DataSet.get", case,
                 impl_answer(lambda: impl_blocks(dendropy.DataSet.get(**kw))), canon_blocks)
+    if schema == "nexus":
+        # the reader front end with an ATTACHED namespace and exclude_chars (the settings under which the theorems relate it
+        # to the iterator): DataSet.get(taxon_namespace=, exclude_chars=True) runs exactly that
+        session.add(model_line("blocks", doc, toks, tail, flags="11"), "DataSet.get(attached namespace, exclude_chars)", case,
+                    impl_answer(lambda: impl_blocks(dendropy.DataSet.get(exclude_chars=True, taxon_namespace=dendropy.TaxonNamespace(), **kw))),
+                    canon_blocks)
     if refusal_only:
         # the reference route refuses the document: the model must refuse it on the same routes (kind of refusal compared)
         # (list / yield / dataset above carry every length and weight of the source; a single-tree answer would hide a
